@@ -1061,6 +1061,39 @@ def c20_r3(ctx):
         ctx.ok()
 
 
+@rule("C19.R6", floor=1)
+def c19_r6(ctx):
+    """Only a regular file is opened for serving: in the cache's by-ticket open (the entry
+    point of the files endpoint) the System::open of the entry path lies on the true edge of
+    `is_file` of that same path, and the false edge answers NotThere.  (The cache also holds
+    directories - displaced directory targets - and opening one succeeds on a real file
+    system: the request would end in a read error and a 500 instead of a clean 404.)"""
+    fs = [f for f in prod(ctx.P) if f.body["span"]["file"].endswith("cache.rs") and sys_calls(f, "open")
+          and "OpenError" in f.body.get("output", {}).get("s", "") and not sys_calls(f, "create_file")]
+    ctx.need(len(fs) == 1, "the cache's by-ticket open")
+    f = fs[0]
+    ctx.saw(f)
+    for op in sys_calls(f, "open"):
+        ctx.inst("open of a cache entry", op.where)
+        po = f.origins_of_operand(op.args[1])
+        tests = [c for c in sys_calls(f, "is_file") if f.origins_of_operand(c.args[1]) == po]
+        yes = set()
+        no = set()
+        for t in tests:
+            yes |= f.bool_edges_of_call(t, True)
+            no |= f.bool_edges_of_call(t, False)
+        if not tests or not f.dominated_by_edges(op.bb, yes):
+            ctx.viol((f.id, "entry-opened-without-is-file"), "a cache entry is opened for serving without having been found to be a regular file: the hash of a cached directory opens successfully on a real file system and the request ends in a read error (500), not in 404", op.where)
+            continue
+        r = f.reach([x for (_, x) in no])
+        nt = [bb for (bb, idx, rv, pl) in f.constructs("cache::OpenError", "NotThere") if bb in r]
+        esc = f.reach([x for (_, x) in no], avoid_blocks=nt)
+        if not nt or any(b in esc for b in f.return_blocks):
+            ctx.viol((f.id, "not-a-file-not-notthere"), "an entry that is not a regular file is not answered with NotThere", op.where)
+        else:
+            ctx.ok()
+
+
 @rule("C19.R5", floor=2)
 def c19_r5(ctx):
     """Route shape: the filter each endpoint closure is mapped over is a chain containing the
@@ -1170,6 +1203,56 @@ def c16_r4(ctx):
             ctx.ok()
         elif ok:
             ctx.viol((f.id, "decoded-buffer-unfilled"), "cannot see the state file being read into the decoded buffer", c.where)
+
+
+@rule("C16.R6", floor=2)
+def c16_r6(ctx):
+    """A state file is written whole: in the functions that serialise state (those calling
+    bincode::serialize, and the local helpers they hand the bytes to), the bytes go to the file
+    through `write_all`; a plain `write` - which may accept only a part of the buffer - is
+    accepted only if the count it returns is examined.  (A torn prefix renamed into place is
+    rejected by the next invocation: what was recorded is not read back.)"""
+    P = ctx.P
+    ser = {f.id for f in prod(P) if any(c.path.endswith("bincode::serialize") for c in f.calls)}
+    ctx.need(len(ser) >= 2, "functions serialising state")
+    scope = set(ser)
+    for fid in ser:
+        for c in P.fns[fid].calls:
+            for t in P.local_targets(c):
+                tf = P.fns.get(t)
+                if tf is not None and not tf.body.get("in_test") and any(x.path.startswith("std::io::Write::") for x in tf.calls):
+                    scope.add(t)
+    n = 0
+    for fid in sorted(scope):
+        f = P.fns[fid]
+        for c in f.calls:
+            if c.path == "std::io::Write::write_all":
+                n += 1
+                ctx.saw(f)
+                ctx.inst("write_all in %s" % fid, c.where)
+                ctx.ok()
+            elif c.path == "std::io::Write::write":
+                n += 1
+                ctx.saw(f)
+                ctx.inst("write in %s" % fid, c.where)
+                cnt = f._call_origins(c, (("variant", "Ok"), ("field", 0)), frozenset())
+                used = False
+                for b in f.blocks:
+                    if b["cleanup"] or b["i"] not in f.live:
+                        continue
+                    for st in b["stmts"]:
+                        if st["k"] == "assign" and st["rv"]["k"] in ("binop", "use", "cast") and not (st["rv"]["k"] == "use" and st["rv"]["op"]["k"] == "const"):
+                            ops = [st["rv"].get("a"), st["rv"].get("b"), st["rv"].get("op")]
+                            for o in ops:
+                                if isinstance(o, dict) and o.get("k") in ("copy", "move") and f.origins_of_operand(o) == cnt:
+                                    used = True
+                    info = f.switch_info(b["i"])
+                    if info and info.get("origins") == cnt:
+                        used = True
+                if used:
+                    raise AnalysisError("idiom not recognised: %s writes state with `write` and examines the count itself (the rule reads write_all only)" % fid)
+                ctx.viol((fid, "state-written-with-write"), "the state file is written with `write` and the number of bytes accepted is ignored: a short write leaves a torn file that is reported as saved, and the next invocation rejects it", c.where)
+    ctx.need(n >= 2, "write sites of the state writers")
 
 
 @rule("C16.R5", floor=3)
